@@ -9,7 +9,7 @@
 EXTENDS Naturals, Sequences, TLC, Json, IOUtils
 Rec == ndJsonDeserialize(IOEnv.TRACE)
 VARIABLES l, rej
-Exact == {"+", "-", "*", "/", "%", "neg", "sqrt", "floor", "ceil", "abs", "max", "min", "sign", "round", "mod", "modulo"}
+Exact == {"+", "-", "*", "/", "%", "neg", "sqrt", "floor", "ceil", "abs", "max", "min", "sign", "round", "mod", "modulo", "exponent", "mantissa"}
 StepOk(e) ==
   /\ e.ev = "NumOp"
   /\ IF e.cls = "nonfinite" THEN e.k = "err"
